@@ -103,6 +103,60 @@ def rule_codec(rep: Report, idx) -> None:
 			r.check(general, f'text:{comp}', (m.relpath, line), f'Prettier prints the terminal text as `{expr}` (escaped), but Pattern.make only un-escapes a terminal that is exactly one escape long (len(candidate) == 2): a terminal such as two tabs or CR LF is printed as "\\t\\t" and parsed back as four literal characters, so from_ast(parse(pretty(g))) != g', expr)
 
 
+def rule_groups(rep: Report, idx, gram_rules_by) -> None:
+	"""every group form the meta-grammar can read must be printed by Prettier in a bracket form that reads back as the same group"""
+	import ast
+	from vlib.srcindex import unparse
+	r = rep.rule('C12/group-print-parse-inverse', 'each repeat kind of a pattern group is printed in the bracket form the meta-grammar reads back as that kind: [x] for one-or-empty, (x)r for * + ?, (x) for a nested group without repeat', floor=3)
+	m = idx.mod('rogw/tranp/implements/syntax/tranp/rule.py')
+	f = m.func('Prettier._deco_repeat')
+	# reader side: expr_opt := "[" expr "]" ; expr_rep := "(" expr ")" [repeat]
+	opt = gram_rules_by.get('expr_opt')
+	rp = gram_rules_by.get('expr_rep')
+	def strings(rule):
+		out = []
+		def w(e):
+			if e[0] == 'string':
+				out.append(e[1][1:-1])
+			elif isinstance(e[1], list):
+				for c in e[1]:
+					w(c)
+		w(rule[1][2])
+		return out
+	if opt is None or rp is None or strings(opt) != ['[', ']'] or strings(rp) != ['(', ')']:
+		r.undecided('reader-forms', ('data/syntax/gram.lark', 1), 'gram.lark no longer defines expr_opt := "[" expr "]" / expr_rep := "(" expr ")" [repeat]')
+		return
+	repeat_optional = any(e[0] == 'expr_opt' for e in rp[1][2][1]) if rp[1][2][0] == 'terms' else False
+	branches = {}
+	cur = next((s_ for s_ in f.node.body if isinstance(s_, ast.If)), None)
+	while isinstance(cur, ast.If):
+		member = unparse(cur.test.comparators[0]).split('.')[-1] if isinstance(cur.test, ast.Compare) else '?'
+		ret = next((x for x in ast.walk(ast.Module(body=cur.body, type_ignores=[])) if isinstance(x, ast.Return)), None)
+		branches[member] = ret
+		nxt = cur.orelse
+		if len(nxt) == 1 and isinstance(nxt[0], ast.If):
+			cur = nxt[0]
+		else:
+			ret = next((x for x in ast.walk(ast.Module(body=nxt, type_ignores=[])) if isinstance(x, ast.Return)), None)
+			branches['<else>'] = ret
+			cur = None
+	def form(ret) -> str:
+		v = ret.value if ret is not None else None
+		if isinstance(v, ast.Name):
+			return 'bare'
+		if isinstance(v, ast.JoinedStr):
+			txt = ''.join(x.value if isinstance(x, ast.Constant) else '{}' for x in v.values)
+			return txt
+		return '?'
+	forms = {k: form(v) for k, v in branches.items()}
+	where = f.where
+	r.check(forms.get('OneOrEmpty') == '[{}]', 'OneOrEmpty', where, f'one-or-empty groups are printed as `{forms.get("OneOrEmpty")}`; the meta-grammar reads them as [x]')
+	r.check(forms.get('<else>') == '({}){}', 'repeated', where, f'repeated groups are printed as `{forms.get("<else>")}`; the meta-grammar reads them as (x) followed by * + or ?')
+	if repeat_optional:
+		# (x) without repeat is a distinct, nestable group; printing it bare merges it into its parent: `a (b | c)` -> `a b | c`
+		r.check(forms.get('NoRepeat') == '({})', 'NoRepeat', where, f'a group without repeat is printed `{forms.get("NoRepeat")}` (no brackets) although the meta-grammar lets it nest (expr_rep := "(" expr ")" [repeat]): `x := a (b | c)` is printed `x := a b | c`, which parses back to a different rule set', unparse(f.node)[-160:])
+
+
 def run(rep: Report, tier: str) -> None:
 	idx = SourceIndex()
 	sync = rep.rule('C12/artifact-sync', 'each grammar rule in the .lark text equals (node by node) the rule in the checked-in *_rules.py tuple tree', floor=72)
@@ -193,5 +247,6 @@ def run(rep: Report, tier: str) -> None:
 		'ast_check imports', (ac.relpath, 1), 'ast_check.py no longer takes gram_rules/gram_tokenizer from data.syntax')
 	wired.note('py_rules.py is imported by the test suite only (test_syntax.py, test_ast.py); no runtime consumer exists to be checked')
 	rule_codec(rep, idx)
+	rule_groups(rep, idx, gram_rules_by)
 	rep.extra_coverage['programs'] = len(sync.obligations)
 	rep.extra_coverage['disagreements_checked'] = sum(1 for o in sync.obligations if o.status == 'violated')
